@@ -146,6 +146,14 @@ for k0 in range(8):
         for t1 in (0, 1):
             p = PL[(k0 * 8 + k1 + t1) % len(PL)]
             lazy("t", False, [(k0, 1), (k1, t1)], p)
+# ---- C20 at World level: twin worlds (constant generations)
+def twin(tier, p, t, u, atomic=False):
+    h("%s_twin_%s_t%d_u%d%s" % (tier, pn(p), t, u, "_a" if atomic else ""), U, "twin::twin_step(%s, %d, %d, %s)" % (P(p), t, u, B(atomic)))
+twin("q", (0, 0, 1), 0, 1)      # two indices freed while one is already on the free list
+twin("q", (1, 0, 0), 2, 1, True)
+twin("t", (0, 0, 0), 0, 2)
+twin("t", (3, 0, 1), 1, 0)
+twin("t", (2, 0, 1), 0, 1)
 src = "// GENERATED by tools/gen_variants.py -- do not edit\n" + "\n".join(out) + "\n\npub const REGISTRY: &[(&str, fn())] = &[\n"
 for n in names:
     src += '    ("%s", %s as fn()),\n' % (n, n)
